@@ -38,3 +38,31 @@ def _(c):
     c.ensures("result == ((self._img_gy0 + self._height - 1) // 256 + 1 - self._img_gy0 // 256) "
               "* ((self._img_gx0 + self._width - 1) // 256 + 1 - self._img_gx0 // 256)", name="rows_times_cols")
     c.ensures("result >= 1", name="positive")
+
+
+from pyvc.families import yields_cover, yields_count  # noqa: E402
+
+
+@contract("toasty.study.StudyTiling.generate_populated_positions")
+def _(c):
+    c.self_type("StudyTiling", **TILING_FIELDS)
+    c.requires(INV)
+    c.yields("tuple[Pos,int,int,int,int,int,int]")
+    c.loop(0, summarise="stateless")   # for ity in range(tile_start_ty, tile_end_ty + 1)
+    c.loop(1, summarise="stateless")   # for itx in range(tile_start_tx, tile_end_tx + 1)
+    c.yields_each("item[0].n == self._tile_levels and 0 <= item[0].x < self._tile_size "
+                  "and 0 <= item[0].y < self._tile_size", name="pos_in_deepest_layer")
+    c.yields_each("1 <= item[1] <= 256 and 1 <= item[2] <= 256", name="rect_nonempty")
+    c.yields_each("0 <= item[5] and item[5] + item[1] <= 256 and 0 <= item[6] and item[6] + item[2] <= 256",
+                  name="rect_inside_tile")
+    c.yields_each("0 <= item[3] and item[3] + item[1] <= self._width and 0 <= item[4] "
+                  "and item[4] + item[2] <= self._height", name="rect_inside_image")
+    c.yields_each("item[3] + self._img_gx0 == 256 * item[0].x + item[5] "
+                  "and item[4] + self._img_gy0 == 256 * item[0].y + item[6]", name="same_global_pixel")
+    # every image pixel lies in the rectangle of exactly one yielded item (disjoint cover)
+    c.post(yields_cover(
+        ["px", "py"], "0 <= px < self._width and 0 <= py < self._height",
+        witness={0: "(py + self._img_gy0) // 256", 1: "(px + self._img_gx0) // 256"},
+        holds="item[3] <= px < item[3] + item[1] and item[4] <= py < item[4] + item[2]",
+        unique=True, name="pixel_partition"))
+    c.post(yields_count("self.count_populated_positions()", [0, 1], name="reported_count"))
